@@ -56,7 +56,7 @@ fn gen(ch: &mut Ch, thorough: bool) -> Option<Case> {
     if assign_first && req != 2 {
         return None;
     }
-    let self_where = ch.pick(3);
+    let self_where = ch.pick(4);
     if self_where == 2 && !generic {
         return None;
     }
@@ -121,11 +121,13 @@ fn build(c: &Case, tier: &str) -> XCase {
         (false, true, _) => "<'a>",
         (false, false, _) => "",
     };
-    let wh = match (c.generic, c.self_where == 1) {
-        (true, true) => " where T: ::core::default::Default, Self: ::core::marker::Sized",
-        (true, false) => " where T: ::core::default::Default",
-        (false, true) => " where Self: ::core::marker::Sized",
-        (false, false) => "",
+    let wh = match (c.generic, c.self_where) {
+        (true, 1) => " where T: ::core::default::Default, Self: ::core::marker::Sized",
+        (true, 3) => " where T: ::core::default::Default, for<'b> Self: Hr<'b>",
+        (true, _) => " where T: ::core::default::Default",
+        (false, 1) => " where Self: ::core::marker::Sized",
+        (false, 3) => " where for<'b> Self: Hr<'b>",
+        (false, _) => "",
     };
     let a_ty = format!("A{g}");
     let same = !matches!(c.rhs, RhsTy::Other | RhsTy::OtherLt);
@@ -134,11 +136,21 @@ fn build(c: &Case, tier: &str) -> XCase {
     let (a_c, b_c) = (format!("A{conc}"), if same { format!("A{conc}") } else if has_lt { format!("&'static B{conc}") } else { format!("B{conc}") });
     let mut s = String::new();
     s.push_str("use derive_ex::derive_ex;\nuse ::core::marker::PhantomData;\n");
+    // a user trait that happens to be called `Clone` (the generated code must name the std trait by its path)
+    s.push_str("pub trait Clone { fn clone(&self) -> Self; }\n");
     for n in ["A", "B"] {
         if c.generic {
-            s.push_str(&format!("#[derive(Debug)] pub struct {n}<T>(pub String, pub PhantomData<T>);\nimpl<T> Clone for {n}<T> {{ fn clone(&self) -> Self {{ dxrt::log(format!(\"clone{n}[{{}}]\", self.0)); {n}(self.0.clone(), PhantomData) }} }}\n"));
+            s.push_str(&format!("#[derive(Debug)] pub struct {n}<T>(pub String, pub PhantomData<T>);\nimpl<T> ::core::clone::Clone for {n}<T> {{ fn clone(&self) -> Self {{ dxrt::log(format!(\"clone{n}[{{}}]\", self.0)); {n}(::core::clone::Clone::clone(&self.0), PhantomData) }} }}\nimpl<T> Clone for {n}<T> {{ fn clone(&self) -> Self {{ dxrt::log(\"user-trait-named-Clone\".to_string()); {n}(String::from(\"WRONG\"), PhantomData) }} }}\n"));
         } else {
-            s.push_str(&format!("#[derive(Debug)] pub struct {n}(pub String, pub PhantomData<u8>);\nimpl Clone for {n} {{ fn clone(&self) -> Self {{ dxrt::log(format!(\"clone{n}[{{}}]\", self.0)); {n}(self.0.clone(), PhantomData) }} }}\n"));
+            s.push_str(&format!("#[derive(Debug)] pub struct {n}(pub String, pub PhantomData<u8>);\nimpl ::core::clone::Clone for {n} {{ fn clone(&self) -> Self {{ dxrt::log(format!(\"clone{n}[{{}}]\", self.0)); {n}(::core::clone::Clone::clone(&self.0), PhantomData) }} }}\nimpl Clone for {n} {{ fn clone(&self) -> Self {{ dxrt::log(\"user-trait-named-Clone\".to_string()); {n}(String::from(\"WRONG\"), PhantomData) }} }}\n"));
+        }
+    }
+    if c.self_where == 3 {
+        // a predicate that already carries a higher-ranked binder; Hr holds for A and for references to A
+        if c.generic {
+            s.push_str("pub trait Hr<'b> {}\nimpl<'b, T> Hr<'b> for A<T> {}\nimpl<'b, 'x, T> Hr<'b> for &'x A<T> {}\n");
+        } else {
+            s.push_str("pub trait Hr<'b> {}\nimpl<'b> Hr<'b> for A {}\nimpl<'b, 'x> Hr<'b> for &'x A {}\n");
         }
     }
     if c.self_where == 2 {
@@ -273,7 +285,7 @@ fn build(c: &Case, tier: &str) -> XCase {
     atoms.insert(format!("requested={}", list.join("+")));
     atoms.insert(format!("generic={}", c.generic));
     atoms.insert(format!("self_in_where={}", c.self_where));
-    let desc = format!("derive_ex({}) on user impl base {:?} rhs {:?}{}", list.join(", "), c.base, c.rhs, if c.generic { " generic" } else { "" }).to_string() + ["", " where Self: Sized", " T: Rel<Self>"][c.self_where];
+    let desc = format!("derive_ex({}) on user impl base {:?} rhs {:?}{}", list.join(", "), c.base, c.rhs, if c.generic { " generic" } else { "" }).to_string() + ["", " where Self: Sized", " T: Rel<Self>", " where for<'b> Self: Hr<'b>"][c.self_where];
     XCase {
         text: s.clone(),
         code: s,
